@@ -44,15 +44,24 @@ def phases(tier):
                 Search('hypothesis-sequences', lambda: e2gen.pool_cases(40), 1000, shards=4),
                 Search('overcommit-sequences', e2gen.overcommit_cases, 1000, shards=4),
                 Machine('stateful-machine', rmmachine.pools_machine, 300, 40, shards=4),
+                Search('reservations-inside-callbacks', lambda: e2gen.waiter_cases(20, True), 600, shards=2, tag='waiters'),
+                Search('fractional-amounts', lambda: e2gen.fraction_cases(30), 1000, shards=2),
                 Fuzz('atheris-coverage-guided', 'engines/fuzz_e2.py', 20000, shards=2)]
     return [Enumerate('enumeration-len5', space(5), 64, describe='16^5 = 1048576 sequences'),
             Search('hypothesis-sequences', lambda: e2gen.pool_cases(60), 4000, shards=16),
             Search('overcommit-sequences', e2gen.overcommit_cases, 4000, shards=16),
             Machine('stateful-machine', rmmachine.pools_machine, 1500, 60, shards=16),
+            Search('reservations-inside-callbacks', lambda: e2gen.waiter_cases(40, True), 4000, shards=8, tag='waiters'),
+            Search('fractional-amounts', lambda: e2gen.fraction_cases(50), 6000, shards=8),
             Fuzz('atheris-coverage-guided', 'engines/fuzz_e2.py', 400000, shards=8)]
 
 
 def run_case(case, ctx):
+    if 'tb' in case:
+        # reservations made from inside availability callbacks: "succeeds exactly when every amount fits" there too
+        pure, real = rmmachine.run_waiters(case, pool_oracles=True)
+        return {'nontrivial': real.c['reserved_in_callback'] > 0, 'classes': ['reserved-inside-callback'] if
+                real.c['reserved_in_callback'] else [], 'counters': {'callbacks': real.c['callbacks']}}
     p = rmmachine.run_pools(case)
     c = p.c
     classes = []
